@@ -369,6 +369,7 @@ func addTo(fm *fontscan.FontMap, o op) ([]entry, error) {
 		md := font.Description{Family: o.Family, Aspect: o.Aspect.aspect()}
 		fm.AddFace(faces[0], loc, md)
 		c := f.cov[0]
+		md.Aspect.SetDefaults() // model: unset fields of the description mean the regular values
 		return []entry{{Loc: loc, Family: font.NormalizeFamily(o.Family), Aspect: md.Aspect, Runes: c.Runes, Scripts: c.Scripts, Langs: c.Langs, Face: faces[0], Sample: c.Sample}}, nil
 	case "AddFont":
 		if err := fm.AddFont(bytes.NewReader(f.bytes), o.ID, o.Family); err != nil {
@@ -699,10 +700,26 @@ func (m *machine) genFamily(t *rapid.T, forQuery bool) string {
 }
 
 func (m *machine) genFaceAspect(t *rapid.T) font.Aspect {
-	if rapid.IntRange(0, 9).Draw(t, "aspectKind") < 6 {
+	k := rapid.IntRange(0, 10).Draw(t, "aspectKind")
+	if k < 6 {
 		return pick(t, "commonAspect", commonAspects)
 	}
-	return pick(t, "gridAspect", c15.Grid())
+	a := pick(t, "gridAspect", c15.Grid())
+	if k == 10 {
+		// description with unset fields (e.g. only the family is given): any subset of the
+		// three fields left at zero; the map is documented to treat them as the regular values
+		mask := rapid.IntRange(1, 7).Draw(t, "unsetMask")
+		if mask&1 != 0 {
+			a.Style = 0
+		}
+		if mask&2 != 0 {
+			a.Weight = 0
+		}
+		if mask&4 != 0 {
+			a.Stretch = 0
+		}
+	}
+	return a
 }
 
 func (m *machine) genQueryAspect(t *rapid.T) font.Aspect {
